@@ -50,6 +50,8 @@ IsDy(x) == /\ x.t = "num" /\ Len(x.d) <= 14
               \/ (x.e = -2 /\ Len(x.d) >= 2 /\ Last(x.d, 2) \in {<<2, 5>>, <<7, 5>>})
               \/ (x.e = -3 /\ Len(x.d) >= 3 /\ Last(x.d, 3) \in {<<1, 2, 5>>, <<3, 7, 5>>, <<6, 2, 5>>, <<8, 7, 5>>})
 Dy(r) == IF IsDy(r) THEN r ELSE Unspec
+\* an integer that a double cannot hold exactly for sure: the arithmetic functions (also abs and negation) work through doubles
+BigInt(x) == x.t = "num" /\ x.e >= 0 /\ Magnitude(x) > 15
 NumAdd(a, b) == IF IsDy(a) /\ IsDy(b) THEN Dy(DecAdd(a, b)) ELSE Unspec
 NumMul(a, b) == IF IsDy(a) /\ IsDy(b) THEN Dy(DecMul(a, b)) ELSE Unspec
 \* small dyadic numbers as integers scaled by 8 (TLC integers)
@@ -301,11 +303,11 @@ EvalCall(f, args, c) ==
          IF AnyU(vs) THEN Unspec ELSE IF \E i \in 1..n : vs[i].t # "num" THEN Nothing
          ELSE IF f = "+" THEN NumFold(vs, 2, Dy(vs[1]), "add") ELSE NumFold(vs, 2, Dy(vs[1]), "mul")
     [] f = "-" -> IF IsU(a1) \/ (n = 2 /\ IsU(a2)) THEN Unspec
-                  ELSE IF n = 1 THEN (IF a1.t = "num" THEN DecNeg(a1) ELSE Nothing)
+                  ELSE IF n = 1 THEN (IF a1.t = "num" THEN (IF BigInt(a1) THEN Unspec ELSE DecNeg(a1)) ELSE Nothing)
                   ELSE IF a1.t = "num" /\ a2.t = "num" THEN NumAdd(a1, DecNeg(a2)) ELSE Nothing
     [] f = "/" -> IF IsU(a1) \/ IsU(a2) THEN Unspec ELSE NumDiv(a1, a2)
     [] f = "%" -> IF IsU(a1) \/ IsU(a2) THEN Unspec ELSE NumMod(a1, a2)
-    [] f = "abs" -> IF IsU(a1) THEN Unspec ELSE IF a1.t = "num" THEN DecAbs(a1) ELSE Nothing
+    [] f = "abs" -> IF IsU(a1) THEN Unspec ELSE IF a1.t = "num" THEN (IF BigInt(a1) THEN Unspec ELSE DecAbs(a1)) ELSE Nothing
     [] f = "ceil" -> IF IsU(a1) THEN Unspec ELSE IF a1.t = "num" THEN NumCeil(a1) ELSE Nothing
     [] f = "floor" -> IF IsU(a1) THEN Unspec ELSE IF a1.t = "num" THEN NumFloor(a1) ELSE Nothing
     [] f = "round" -> IF IsU(a1) THEN Unspec ELSE IF a1.t = "num" THEN NumRound(a1) ELSE Nothing
